@@ -14,13 +14,15 @@ Definition leaf_json (l : leaf) : json :=
 (** How a resolver fails: plain error, graphql.SafeError, WrapAsSafeError (a SafeError with an inner
     cause), panic; [EWrapsSafe] is an ordinary error that merely wraps a safe one
     (fmt.Errorf("...: %w", safeErr)): it is not itself a SanitizedError; [EClient] is a
-    graphql.ClientError raised by the executor itself (bad directive). *)
-Inductive eclass := EPlain | ESafe | EWrapped | EPanic | EClient | EWrapsSafe.
+    graphql.ClientError raised by the executor itself (bad directive); [ECustom] is a user-defined
+    error type implementing SanitizedError whose SanitizedError() text differs from its Error() text:
+    [e_text] of a safe error is its SanitizedError() text, the only text a client may see. *)
+Inductive eclass := EPlain | ESafe | EWrapped | EPanic | EClient | EWrapsSafe | ECustom.
 
 Definition eclass_eqb (a b : eclass) : bool :=
   match a, b with
   | EPlain, EPlain | ESafe, ESafe | EWrapped, EWrapped | EPanic, EPanic | EClient, EClient
-  | EWrapsSafe, EWrapsSafe => true
+  | EWrapsSafe, EWrapsSafe | ECustom, ECustom => true
   | _, _ => false
   end.
 
@@ -30,7 +32,7 @@ Definition err_eqb (a b : err) : bool := eclass_eqb (e_class a) (e_class b) && S
 
 (** err.(SanitizedError): a type assertion on the error itself, not errors.As through its chain. *)
 Definition safe (e : err) : bool :=
-  match e_class e with ESafe | EWrapped | EClient => true | _ => false end.
+  match e_class e with ESafe | EWrapped | EClient | ECustom => true | _ => false end.
 
 Inductive outcome (V : Type) : Type :=
 | OOk (v : V)
